@@ -26,7 +26,10 @@ import (
 	"github.com/massnetorg/mass-core/pocec"
 
 	"github.com/golang/protobuf/ptypes/empty"
+	"github.com/massnetorg/mass-core/blockchain"
+	coreconfig "github.com/massnetorg/mass-core/config"
 	"github.com/massnetorg/mass-core/massutil"
+	"github.com/massnetorg/mass-core/wire"
 	"google.golang.org/grpc/status"
 
 	"massnet.org/mass/api"
@@ -36,6 +39,7 @@ import (
 	"massnet.org/mass/poc/engine"
 	"massnet.org/mass/poc/engine/massdb"
 	massdb_v1 "massnet.org/mass/poc/engine/massdb/massdb.v1"
+	realminer "massnet.org/mass/poc/engine/pocminer/miner"
 	"massnet.org/mass/poc/engine/spacekeeper/capacity"
 	"massnet.org/mass/poc/wallet/keystore"
 
@@ -460,18 +464,19 @@ var flagNames = map[string]engine.WorkSpaceStateFlags{"registered": engine.SFReg
 var actNames = map[string]engine.ActionType{"Plot": engine.Plot, "Mine": engine.Mine, "Stop": engine.Stop, "Remove": engine.Remove, "Delete": engine.Delete}
 
 type drv struct {
-	sk      *capacity.SpaceKeeper
-	reg     *registry
-	g       *gates
-	sids    map[string]string // w -> sid
-	names   map[string]string // sid -> w
-	dbs     map[string]*fakeDB
-	at      string // where the plotter goroutine is: "none", a gate name, "inplot", "exited"
-	running bool
-	cur     *fakeDB
-	wal     *fakeWallet
-	srv     *api.Server // Api scenarios: the gRPC handlers over this keeper and a scripted miner
-	miner   *fakeMiner
+	sk           *capacity.SpaceKeeper
+	reg          *registry
+	g            *gates
+	sids         map[string]string // w -> sid
+	names        map[string]string // sid -> w
+	dbs          map[string]*fakeDB
+	at           string // where the plotter goroutine is: "none", a gate name, "inplot", "exited"
+	running      bool
+	cur          *fakeDB
+	wal          *fakeWallet
+	minerStarted func() bool
+	srv          *api.Server // Api scenarios: the gRPC handlers over this keeper and a scripted miner
+	miner        *fakeMiner
 }
 
 // fakeMiner: the PoC miner as the handlers see it (started or not).  Its Start follows OnStart of
@@ -509,6 +514,32 @@ func (m *fakeMiner) Stop() error {
 func (m *fakeMiner) Started() bool                               { m.mu.Lock(); defer m.mu.Unlock(); return m.started }
 func (m *fakeMiner) Type() string                                { return "scripted" }
 func (m *fakeMiner) SetPayoutAddresses([]massutil.Address) error { return nil }
+
+// opt realminer: the real sync miner (poc/engine/pocminer/miner) instead of the scripted one.  It never gets to mine:
+// its sync manager reports no peers, so its loop sleeps; what is exercised is its own Start (which starts the keeper
+// first), Stop (which waits for its goroutine: up to one slot) and Started.
+type idleChain struct{}
+
+func (idleChain) BestBlockNode() *blockchain.BlockNode {
+	return &blockchain.BlockNode{Hash: &wire.Hash{}}
+}
+func (idleChain) BestBlockHash() *wire.Hash { return &wire.Hash{} }
+func (idleChain) BestBlockHeight() uint64   { return 0 }
+func (idleChain) ProcessBlock(*massutil.Block) (bool, error) {
+	return false, errors.New("unused")
+}
+func (idleChain) ChainID() *wire.Hash { return &wire.Hash{} }
+func (idleChain) BlockWaiter(uint64) (<-chan *blockchain.BlockNode, error) {
+	return nil, errors.New("unused")
+}
+func (idleChain) NewBlockTemplate([]massutil.Address, chan interface{}) error {
+	return errors.New("unused")
+}
+
+type noPeers struct{}
+
+func (noPeers) IsCaughtUp() bool { return false }
+func (noPeers) PeerCount() int   { return 0 }
 
 // apiRes names a handler's answer
 func apiRes(res, msg string, err error) string {
@@ -772,7 +803,7 @@ func (d *drv) project(ev vh.Event) {
 			}
 		}
 		ev["apist"] = apist
-		ev["miner"] = d.miner.Started()
+		ev["miner"] = d.minerStarted()
 		ev["locked"] = d.wal.IsLocked()
 	}
 }
@@ -836,7 +867,24 @@ func run(sc vh.Scenario, dir string, rec *vh.Rec) {
 		d.miner = &fakeMiner{sk: sk}
 		wal.locked = true // a node starts with a locked wallet
 		d.wal = wal
-		d.srv = api.VerifServer(d.miner, wal, mining.NewConfigurableSpaceKeeperV1(sk))
+		var pm mining.PoCMiner = d.miner
+		if rm, _ := sc.Opt["realminer"].(bool); rm {
+			addr, err := massutil.NewAddressWitnessScriptHash(make([]byte, 32), &coreconfig.ChainParams)
+			if err != nil {
+				rec.Dead, rec.Note = true, "payout address: "+err.Error()
+				return
+			}
+			m, err := realminer.NewSyncMiner(false, idleChain{}, noPeers{}, sk, make(chan *wire.Hash, 1), []massutil.Address{addr})
+			if err != nil {
+				rec.Dead, rec.Note = true, "NewSyncMiner: "+err.Error()
+				return
+			}
+			pm = m
+			d.minerStarted = m.Started
+		} else {
+			d.minerStarted = d.miner.Started
+		}
+		d.srv = api.VerifServer(pm, wal, mining.NewConfigurableSpaceKeeperV1(sk))
 	}
 	// the first event fixes the initial state
 	ev0 := vh.Event{"a": "Init", "order": order}
